@@ -442,9 +442,33 @@ class ClassSpec:
                 elif kinds == {"set"}:
                     aux[name] = (T.set_(), False)
                 else:
-                    aux[name] = (T.opaque, False)
+                    aux[name] = (OpaqueT("unknown"), False)
             self._aux = aux
+            # the value the real constructor gives the attribute, where it is a literal (or an empty set): the start
+            # of the short native histories that decide whether a counter-model's auxiliary state can be reached
+            init = {}
+            if node is not None:
+                for item in node.body:
+                    if isinstance(item, (_ast.FunctionDef, _ast.AsyncFunctionDef)) and item.name == "__init__" and item.args.args:
+                        me = item.args.args[0].arg
+                        for n in _ast.walk(item):
+                            tg, val = None, None
+                            if isinstance(n, _ast.Assign) and len(n.targets) == 1:
+                                tg, val = n.targets[0], n.value
+                            elif isinstance(n, _ast.AnnAssign) and n.value is not None:
+                                tg, val = n.target, n.value
+                            if (isinstance(tg, _ast.Attribute) and isinstance(tg.value, _ast.Name) and tg.value.id == me
+                                    and tg.attr in aux and tg.attr not in init):
+                                if isinstance(val, _ast.Constant):
+                                    init[tg.attr] = ("const", val.value)
+                                elif isinstance(val, _ast.Call) and isinstance(val.func, _ast.Name) and val.func.id in ("set", "dict", "list") and not val.args:
+                                    init[tg.attr] = ("empty", val.func.id)
+            self._aux_init = init
         return self._aux
+
+    def aux_init(self):
+        self.aux_fields()
+        return self._aux_init
 
     def fresh(self, I, name, assume_inv=True, overrides=None):
         fields = {}
